@@ -25,6 +25,10 @@ var (
 	// ErrInvalidIndexOnError represents an invalid index on error.
 	ErrInvalidIndexOnError = errors.New("invalid index on error")
 
+	// ErrDivisionByZero represents an integer division (or remainder) by
+	// zero.
+	ErrDivisionByZero = errors.New("division by zero")
+
 	// ErrInvalidOperator represents an error for invalid operator usage.
 	ErrInvalidOperator = errors.New("invalid operator")
 
